@@ -421,11 +421,18 @@ func buildField(ww *conversionVisitor, node sourcewalk.FieldNode) (*descriptorpb
 
 		if st.Float.ListRules != nil {
 			ww.file.ensureImport(j5ListAnnotationsImport)
-			proto.SetExtension(desc.Options, list_j5pb.E_Field, &list_j5pb.FieldConstraint{
-				Type: &list_j5pb.FieldConstraint_Float{
+			constraint := &list_j5pb.FieldConstraint{}
+			// the arm follows the proto type of the field, as for integers
+			if st.Float.Format == schema_j5pb.FloatField_FORMAT_FLOAT64 {
+				constraint.Type = &list_j5pb.FieldConstraint_Double{
+					Double: st.Float.ListRules,
+				}
+			} else {
+				constraint.Type = &list_j5pb.FieldConstraint_Float{
 					Float: st.Float.ListRules,
-				},
-			})
+				}
+			}
+			proto.SetExtension(desc.Options, list_j5pb.E_Field, constraint)
 		}
 
 		return desc, nil
@@ -762,6 +769,15 @@ func buildField(ww *conversionVisitor, node sourcewalk.FieldNode) (*descriptorpb
 			}
 			proto.SetExtension(desc.Options, validate.E_Field, rules)
 			ww.file.ensureImport(bufValidateImport)
+		}
+
+		if st.Timestamp.ListRules != nil {
+			ww.file.ensureImport(j5ListAnnotationsImport)
+			proto.SetExtension(desc.Options, list_j5pb.E_Field, &list_j5pb.FieldConstraint{
+				Type: &list_j5pb.FieldConstraint_Timestamp{
+					Timestamp: st.Timestamp.ListRules,
+				},
+			})
 		}
 
 		return desc, nil
